@@ -337,6 +337,10 @@ class AbstractHasAxes(AbstractHasMetadata):
                 lix = ix
                 ix = self.axes[dim].loc(lix, tol=tol)
 
+            # position index given as an empty list: asarray made it float64
+            elif isinstance(ix, np.ndarray) and ix.size == 0 and ix.dtype.kind == 'f':
+                ix = ix.astype(int)
+
             # numpy rule: a singleton list does not collapse the axis
             if keepdims and np.isscalar(ix):
                 ix = [ix]
